@@ -454,8 +454,9 @@ for steps, rn in [
       "u = u ** math.pi"], "default"),
     (["u = Unit('foe', registry=reg)", "u = u / Unit('ystatA', registry=reg)", "u = u ** math.pi", "u = (u * u) ** 0.5"], "default"),
     (["u = Unit('uamp', registry=reg)", "u = u * Unit('s', registry=reg)"], "default"),
-    (["u = Unit('lat', registry=reg)", "u = (u * u) ** 0.5"], "default"),
-    (["u = Unit('lat', registry=reg)", "u = u ** 2", "u = u ** 0.5", "u = u / Unit('s', registry=reg)"], "default"),
+    (["u = Unit('2*lat', registry=reg)", "u = (u * u) ** 0.5"], "default"),
+    (["u = Unit('lat', registry=reg)", "u = Unit(0.5 * u, registry=reg)", "u = (u * u) ** 0.5",
+      "u = u / Unit('nSv', registry=reg)"], "default"),
     (["u = Unit('Symbol(\\'m\\')', registry=reg)"], "default"),
 ]:
     add("arith", steps, rn)
